@@ -10,6 +10,7 @@ CONSTANTS
   Horizon = 8
   MaxEx = 1000000
   ProbeNs <- ProbesFaithful
+  ProbeUids <- UidsOwn
 VIEW viewU
 INVARIANTS SentLeavesPool FieldCount NoShrink PoolCap StaysFull RespCount FreshCookiesOpen
 PROPERTIES SingleUse Answered Fresh
